@@ -12,6 +12,7 @@ import (
 	"os"
 	"os/exec"
 	"path/filepath"
+	"regexp"
 	"sort"
 	"strings"
 	"sync"
@@ -102,6 +103,43 @@ func sweep(p *Program, rep *PropertyReport, spec *PropertySpec, seed int64) map[
 				lines[f] = map[int]bool{}
 			}
 			lines[f][ln] = true
+		}
+	}
+	// functions named in the obligations' constructs and contexts (helpers on the call chains) are swept too
+	funcRe := regexp.MustCompile(`\(\*?[A-Za-z_][A-Za-z0-9_]*\)\.([A-Za-z_][A-Za-z0-9_]*)`)
+	named := map[string]bool{}
+	for _, rr := range rep.Rules {
+		if !own[rr.Rule] {
+			continue
+		}
+		for _, o := range rr.Obligations {
+			for _, txt := range append([]string{o.Construct}, o.Facts...) {
+				for _, m := range funcRe.FindAllStringSubmatch(txt, -1) {
+					named[m[1]] = true
+				}
+			}
+		}
+	}
+	for _, pk := range p.Pkgs {
+		for i, f := range pk.Syntax {
+			rel := strings.TrimPrefix(pk.CompiledGoFiles[i], p.RepoDir+"/")
+			excluded := false
+			for _, x := range p.ExcludedFiles {
+				if x == rel {
+					excluded = true
+				}
+			}
+			if excluded || strings.HasSuffix(rel, ".pb.go") {
+				continue
+			}
+			for _, d := range f.Decls {
+				if fd, ok := d.(*ast.FuncDecl); ok && fd.Body != nil && named[fd.Name.Name] {
+					if lines[rel] == nil {
+						lines[rel] = map[int]bool{}
+					}
+					lines[rel][p.Fset.Position(fd.Body.Pos()).Line] = true
+				}
+			}
 		}
 	}
 	var vars []variant
